@@ -530,6 +530,10 @@ def medianTime (ts : List Int) : Int :=
   let w := ts.take 11
   (w.foldr insertSorted []).getD (w.length / 2) 0
 
+/-- `LockTimeToSequence` (uint32 arithmetic) -/
+def lockTimeToSequence (isSeconds : Bool) (locktime : Nat) : Nat :=
+  if !isSeconds then locktime % 2^32 else (2^22 ||| (locktime % 2^32 / 2^9)) % 2^32
+
 /-- `CalcPastMedianTime(node.Ancestor(height))` on the chain's timestamps (index = height) -/
 def mtpAt (times : List Int) (height : Nat) : Int := medianTime (times.take (height + 1)).reverse
 
